@@ -74,11 +74,15 @@ func main() {
 	walkLen := flag.Int("walklen", 60, "")
 	journal := flag.String("journal", "", "")
 	replay := flag.String("replay", "", "replay file (json with path)")
+	jobsFile := flag.String("jobs", "", "json list of {adaptor, out, worker, workers, journal}: several adaptors over one graph")
 	fresh := flag.Bool("fresh", true, "fresh Runtime per tour")
 	flag.Parse()
 	a := &jsAdaptor{fresh: *fresh}
 	mk := func() walk.Adaptor { return &jsAdaptor{fresh: *fresh, prg: a.prg} }
 	for _, f := range strings.Split(*adaptor, ",") {
+		if f == "" {
+			continue
+		}
 		src, err := os.ReadFile(f)
 		if err != nil {
 			fmt.Fprintln(os.Stderr, err)
@@ -114,6 +118,45 @@ func main() {
 		os.Exit(2)
 	}
 	walk.Watchdog(o)
+	if *jobsFile != "" {
+		var jobs []struct {
+			Adaptor string
+			Out     string
+			Worker  int
+			Workers int
+			Journal string
+		}
+		data, err := os.ReadFile(*jobsFile)
+		if err == nil {
+			err = json.Unmarshal(data, &jobs)
+		}
+		if err != nil {
+			fmt.Fprintln(os.Stderr, err)
+			os.Exit(2)
+		}
+		for _, j := range jobs {
+			var prg []*goja.Program
+			for _, f := range strings.Split(j.Adaptor, ",") {
+				src, err := os.ReadFile(f)
+				if err != nil {
+					fmt.Fprintln(os.Stderr, err)
+					os.Exit(2)
+				}
+				prg = append(prg, goja.MustCompile(f, string(src), false))
+			}
+			mkj := func() walk.Adaptor { return &jsAdaptor{fresh: *fresh, prg: prg} }
+			oj := o
+			oj.Journal = j.Journal
+			os.WriteFile(*jobsFile+".current", []byte(j.Out), 0644)
+			rep := walk.CoverParallel(g, mkj, oj, j.Worker, *threads, j.Workers)
+			rep.Edges, rep.Nodes, rep.DevEdges = len(g.Edges)-g.DevEdges, g.Nodes, g.DevEdges
+			if err := walk.WriteReport(rep, j.Out); err != nil {
+				fmt.Fprintln(os.Stderr, err)
+				os.Exit(2)
+			}
+		}
+		return
+	}
 	rep := walk.CoverParallel(g, mk, o, *worker, *threads, *workers)
 	rep.Edges, rep.Nodes, rep.DevEdges = len(g.Edges)-g.DevEdges, g.Nodes, g.DevEdges
 	if err := walk.WriteReport(rep, *out); err != nil {
